@@ -22,6 +22,7 @@ CHECKS = {
     "C15": "mc.checks.c15",
     "C16": "mc.checks.c16",
     "C17": "mc.checks.c17",
+    "C18": "mc.checks.c18",
     "C19": "mc.checks.c19",
     "C20": "mc.checks.c20",
 }
